@@ -59,6 +59,8 @@ def run(R):
         r6(R)
     if R.want("C18.R7"):
         r7(R)
+    if R.want("C18.R8"):
+        r8(R)
 
 
 # --------------------------------------------------------------------------------------------------
@@ -845,6 +847,60 @@ def is_h5_object(mm, stmt, e):
     if fn is not None and isinstance(e, ast.Name) and e.id in [x.arg for x in fn.args.args]:
         return re.match(r"^(group|grp|g|h5\w*|hdf\w*|hin|hout|dset|dataset)$", e.id) is not None
     return False
+
+
+# --------------------------------------------------------------------------------------------------
+def r8(R):
+    """One frame per group, and the reader is OPEN: from_hdf_group takes every dataset of the group (other than row / col) as a pixel
+    array of the frame and every attribute of a dataset as its metadata.  The writer writes a CLOSED set (the names the frame has).
+    Saving a frame over a group that held a frame with more pixel arrays (or more metadata keys) therefore reads back with the old
+    arrays attached to the new pixels - unless the writer deletes what it did not write.  Two cooperating sites: each looks fine alone."""
+    R.rule("C18.R8", "sparse frames, overwriting a group: from_hdf_group reads every dataset / attribute it finds, so to_hdf_group removes the "
+                     "datasets (del group[name] for names not in frame.pixels) and the per-array attributes of an earlier save that it does not write")
+    m = pyfacts.module(R, SPF)
+    w = m.ifunc("sparse_frame.to_hdf_group")
+    rd = m.ifunc("from_hdf_group")
+    grp_r = rd.args.args[0].arg
+    grp_w = w.args.args[-1].arg
+    open_ds = [f for f in ast.walk(rd) if isinstance(f, (ast.For, ast.comprehension)) and any(isinstance(x, ast.Name) and x.id == grp_r for x in ast.walk(f.iter))
+               and not any(isinstance(x, ast.Attribute) and x.attr == "attrs" for x in ast.walk(f.iter))]
+    open_at = [c for c in ast.walk(rd) if isinstance(c, ast.Call) and src(c.func) == "dict" and len(c.args) == 1 and src(c.args[0]).endswith(".attrs")
+               and src(c.args[0]).startswith(grp_r + "[")]
+
+    def deletes(kind):
+        out = []
+        for d in ast.walk(w):
+            if isinstance(d, ast.Delete):
+                for t in d.targets:
+                    ts = src(t).replace(" ", "")
+                    if kind == "dataset" and isinstance(t, ast.Subscript) and src(t.value) == grp_w:
+                        out.append(d)
+                    if kind == "attr" and isinstance(t, ast.Subscript) and ts.startswith(grp_w + "[") and ".attrs[" in ts:
+                        out.append(d)
+            if kind == "attr" and isinstance(d, ast.Call) and isinstance(d.func, ast.Attribute) and d.func.attr == "clear" and src(d.func.value).endswith(".attrs") \
+                    and src(d.func.value).startswith(grp_w + "["):
+                out.append(d)
+        return out
+    if open_ds:
+        dd = deletes("dataset")
+        R.check(bool(dd), "C18.R8", SPF, w.lineno, "sparse_frame.to_hdf_group", "datasets of an earlier frame removed (reader: for .. in %s)" % src(open_ds[0].iter)[:30],
+                "from_hdf_group (line %d) takes every dataset in the group as a pixel array, and to_hdf_group writes only the arrays the frame has and "
+                "deletes nothing: a frame with only 'intensity' saved over a group that held 'intensity' and 'labels' reads back with the OLD labels "
+                "(and their nlabel) attached to the NEW pixels" % open_ds[0].iter.lineno)
+        for d in dd:
+            cfg = pyfacts.PyCFG(w)
+            g = [src(t) for t, pol in cfg.guards(cfg.node_of(d))] if cfg.node_of(d) is not None else []
+            R.check(any("pixels" in t for t in g), "C18.R8", SPF, d.lineno, "sparse_frame.to_hdf_group", "%s only for names the frame does not have (%s)" % (src(d), "; ".join(g)[:60]),
+                    "datasets are deleted without testing that the frame does not own them: arrays just written are removed")
+    else:
+        R.inst("C18.R8", "from_hdf_group reads a closed set of datasets")
+    if open_at:
+        R.check(bool(deletes("attr")), "C18.R8", SPF, w.lineno, "sparse_frame.to_hdf_group", "attributes of an earlier save removed (reader: %s)" % src(open_at[0])[:40],
+                "from_hdf_group takes every attribute of a pixel dataset as its metadata, and to_hdf_group only adds / updates keys (attrs.update): "
+                "metadata keys of the frame that was in the group before (nlabel of other labels, a threshold) come back attached to the new array")
+    else:
+        R.inst("C18.R8", "from_hdf_group reads a closed set of attributes")
+    R.floor("C18.R8", 2)
 
 
 # --------------------------------------------------------------------------------------------------
